@@ -61,31 +61,16 @@ Definition addr_ok (link proto : Z) (rdst rsrc : list Z) (e : expect) (f : list 
   else
     net_addr_ok e proto f && want_l (eSrcMac e) rsrc && want_l (eDstMac e) rdst.
 
-(* known-finding patterns (see the final report of the C06 build):
-   2 = C06-udp-zero-checksum: the only defect of the frame is a UDP checksum field of 0 where the
-       computed checksum is 0 (RFC 768: must be sent as 0xffff; illegal over IPv6);
-   3 = C06-ping6-no-pseudo-header: an ICMPv6 echo request whose checksum verifies only WITHOUT
-       the IPv6 pseudo-header (transport/ping sendPing6) *)
+(* No known-finding patterns are left.  The three shapes that used to have codes 2..4 -
+   C06-udp-zero-checksum (UDP checksum field 0 where the checksum computes to 0; repaired by /repo
+   723c609), C06-ping6-no-pseudo-header (ICMPv6 echo request summed without the pseudo-header;
+   65b8ba4), C06-ndp-solicit-zero-src-mac (neighbour solicitation leaving the fd-based link with
+   source MAC 00:00:00:00:00:00; 8cee966) - are plain violations (code 1) if they ever come back:
+   the first two fail [wf_frame] (wf_udp wants a non-zero verifying checksum, wf_icmp6 a sum over the
+   pseudo-header), the third fails [addr_ok] (the scenario dictates the NIC's address as source).
+   The driver keeps producing the inputs that exhibited them. *)
 Definition net_of (link : Z) (f : list Z) : list Z := if link =? 1 then skipn 14 f else f.
 Definition proto_of (link proto : Z) (f : list Z) : Z := if link =? 1 then eth_type_of f else proto.
-
-Definition udp_zero_pattern (link proto : Z) (f : list Z) : bool :=
-  let p := net_of link f in
-  let pr := proto_of link proto f in
-  if pr =? 2048 then
-    (ip4_proto p =? 17) && (b16 (ip4_payload p) 6 =? 0) &&
-    sums_to_ffff (pseudo4 (ip4_src p) (ip4_dst p) 17 (zlen (ip4_payload p)) ++ ip4_payload p) &&
-    wf_frame link proto true f
-  else if pr =? 34525 then
-    (ip6_nh p =? 17) && (b16 (ip6_payload p) 6 =? 0) &&
-    sums_to_ffff (pseudo6 (ip6_src p) (ip6_dst p) 17 (zlen (ip6_payload p)) ++ ip6_payload p) &&
-    wf_frame link proto true f
-  else false.
-
-Definition ping6_pattern (link proto : Z) (f : list Z) : bool :=
-  let p := net_of link f in
-  (proto_of link proto f =? 34525) && (ip6_nh p =? 58) && (b8 (ip6_payload p) 0 =? 128) &&
-  sums_to_ffff (ip6_payload p).
 
 Fixpoint adjacent_distinct (l : list Z) : bool :=
   match l with
@@ -106,27 +91,13 @@ Definition route_ok (table : list rentry) (nics : list nicinfo) (nicid : Z) (lad
   | _, _ => false
   end.
 
-(*  4 = C06-ndp-solicit-zero-src-mac: a neighbour solicitation sent through the fd-based Ethernet
-       endpoint carries the source MAC 00:00:00:00:00:00 (LinkAddressRequest builds a route with a
-       LocalAddress but no LocalLinkAddress); everything else about the frame is as expected *)
-Definition no_smac (e : expect) : expect :=
-  mkExp (eSrc e) (eDst e) (eTproto e) (eSport e) (eDport e) [] (eDstMac e).
-Definition ndp_zero_src_pattern (link proto : Z) (rdst rsrc : list Z) (e : expect) (f : list Z) : bool :=
-  (link =? 1) && (eth_type_of f =? 34525) && (ip6_nh (skipn 14 f) =? 58) &&
-  (b8 (ip6_payload (skipn 14 f)) 0 =? 135) && all_eq 0 (eth_src f) &&
-  addr_ok link proto rdst rsrc (no_smac e) f.
-
 Definition spec (c : case) : Z :=
   match c with
   | CFrame _ link proto offload rdst rsrc e fr =>
       let f := expand fr in
       let wf := wf_frame link proto offload f in
       let ad := addr_ok link proto rdst rsrc e f in
-      if wf && ad then 0
-      else if negb wf && ad && udp_zero_pattern link proto f then 2
-      else if negb wf && ping6_pattern link proto f then 3
-      else if wf && ndp_zero_src_pattern link proto rdst rsrc e f then 4
-      else 1
+      if wf && ad then 0 else 1
   | CIds _ hdrs => bz (ids_ok hdrs)
   | CRoute table nics nicid laddr raddr res => bz (route_ok table nics nicid laddr raddr res)
   end.
